@@ -277,6 +277,12 @@ func (dec *tomlDecoder) processTable(currentNode *toml.Node) (bool, error) {
 		tableValue = dec.parser.Expression()
 		// next expression is not table data, so we are done
 		if tableValue.Kind != toml.KeyValue {
+			// a table without entries is still a table of the document
+			c := Context{}
+			c = c.SingleChildContext(dec.rootMap)
+			if err := dec.d.DeeplyAssign(c, fullPath, tableNodeValue); err != nil {
+				return false, err
+			}
 			log.Debug("got an empty table, returning")
 			return true, nil
 		}
